@@ -574,7 +574,6 @@ package collection
 
 //@ func NewQueue
 //@   property C16
-//@   requires size >= 1
 //@   ghost at returned#0: qPut[ret] = 0
 //@   ghost at returned#0: qGot[ret] = 0
 //@   ensures  fresh(result) && qOK(result) && qPut[result] == 0 && qGot[result] == 0
